@@ -175,13 +175,13 @@ func (r Row) scanFloat64(i int) (float64, error) {
 	case float64:
 		return rv, nil
 	case string:
-		vt, err := strconv.ParseFloat(rv, 64)
+		vt, err := stringToFloat64(rv)
 		if err != nil {
 			return 0, fmt.Errorf("invalid number: %q", rv)
 		}
 		return vt, nil
 	case []byte:
-		vt, err := strconv.ParseFloat(string(rv), 64)
+		vt, err := stringToFloat64(string(rv))
 		if err != nil {
 			return 0, fmt.Errorf("invalid number: %q", rv)
 		}
@@ -249,6 +249,25 @@ func stringToInt64(s string) (int64, error) {
 	if v, err := strconv.ParseInt(s, 10, 64); err == nil {
 		return v, nil
 	}
-	f, err := strconv.ParseFloat(s, 64)
-	return int64(f), err
+	f, err := stringToFloat64(s)
+	if err != nil {
+		return 0, err
+	}
+	if f >= 1<<63 || f < -(1<<63) {
+		return 0, errors.New("number out of range")
+	}
+	return int64(f), nil
+}
+
+// stringToFloat64 accepts decimal numbers only. strconv.ParseFloat also takes
+// Go literals: "inf", "nan", "0x1p4", "1_000".
+func stringToFloat64(s string) (float64, error) {
+	for i := 0; i < len(s); i++ {
+		switch c := s[i]; {
+		case '0' <= c && c <= '9', c == '+', c == '-', c == '.', c == 'e', c == 'E':
+		default:
+			return 0, errors.New("not a decimal number")
+		}
+	}
+	return strconv.ParseFloat(s, 64)
 }
